@@ -71,6 +71,7 @@ func (e *Engine) verifyFunc(fn *ssa.Function, ct *Contract, prop string) *Run {
 				}
 			}
 		}
+		r.curRets = o.rets
 		oe := &Env{r: r, st: o.st, old: r.entry, vars: vars, fr: o.fr, ctx: r.name + "/ensures"}
 		for _, cl := range ct.Ensures {
 			g := r.evalBool(oe, cl.Expr)
@@ -123,6 +124,7 @@ func (e *Engine) verifyFunc(fn *ssa.Function, ct *Contract, prop string) *Run {
 			}
 		}
 	}
+	r.curRets = nil
 	// every callsite/send clause must have been attached to at least one instruction
 	for _, ss := range ct.Sites {
 		key := r.name + "|" + ss.Callee + "|" + fmt.Sprint(ss.Ordinal) + "|" + fmt.Sprint(ss.IsSend)
